@@ -84,7 +84,17 @@ def gen_V(rnd, T, depth, B0, share):
         if share is not None and rnd.random() < 0.3:
             node["share"] = share + "V"
         return node
-    form = rnd.choice(["V+V", "V-V", "S*V", "V*S", "V/S", "V**n", "n*V", "V*n", "V+V", "(V**n)**m"])
+    form = rnd.choice(["V+V", "V-V", "S*V", "V*S", "V/S", "V**n", "n*V", "V*n", "V+V", "(V**n)**m", "V*V"])
+    if form == "V*V":
+        # pointwise product of two position-dependent operands (a per-point weight times a field): one of
+        # them is often the time- and position-dependent leaf, the other a time-independent Parameter
+        a = gen_V(rnd, T, depth - 1, B0, share)
+        b = gen_V(rnd, T, 0, B0, share)
+        if rnd.random() < 0.6:
+            b = {"leaf": "wave", "a": rnd.choice([0.5, 1.0, 2.0]), "kx": rnd.choice([0.7, 1.3, 2.0]), "ky": rnd.choice([0.5, 1.1]), "w": scen.r3(rnd.choice([0.5, 3.0]) / T)}
+            if rnd.random() < 0.4:
+                b = {"op": "*", "l": gen_T(rnd, T, share), "r": {"leaf": "gauge", "c": [rnd.choice([0.8, -1.2]), rnd.choice([0.5, 1.1])], "q": [0.3, 0.0, -0.2]}}
+        return {"op": "*", "l": a, "r": b} if rnd.random() < 0.5 else {"op": "*", "l": b, "r": a}
     if form == "(V**n)**m":
         # a power of an even power: the inner value is >= 0 whatever the sign of V, so the fractional
         # outer exponent is legal - and (V**n)**m is not V**(n*m) where V < 0
